@@ -41,3 +41,10 @@ package trie
 //@   trusted
 //@   pure
 //@   opt ghost:iter_key k
+
+// C20: objects stored in a trie can have data of their own to request during state sync
+//@ property C20
+//@ func (o Object) Resolve(builder) (err)
+//@   iface
+//@   trusted
+//@   modifies *
